@@ -120,6 +120,20 @@ def init (fixed : Bool) (n : Nat) (fileKind : Nat) (sysOk : Bool) : St :=
   let s : St := ⟨4, db, 2, file, ⟨none, []⟩, ⟨none, []⟩⟩
   load fixed sysOk (load fixed sysOk s false) true
 
+/-- `ProductStack.reload` of the user's (up-to-date) cache file by instance 1 with ANOTHER WRITER'S whole command landing
+inside it (two unserialised writers; instance 0 was constructed before).  `statFirst = true` is the code
+(`self.modtimes[file] = os.stat(file).st_mtime`, then `open` + `pickle.load`; the other writer may come before or
+after the read — `readLate` —, the time noted is the old one either way); `statFirst = false` notes the time after
+unpickling (old content with the new time). -/
+def loadGate (statFirst readLate : Bool) (s : St) : St :=
+  match s.file with
+  | none => s
+  | some f =>
+    let s' := step true s .other
+    let content := if readLate then (s'.file.map (·.content)).getD f.content else f.content
+    let t := if statFirst then f.mtime else (s'.file.map (·.mtime)).getD f.mtime
+    { s' with i1 := ⟨some t, content⟩ }
+
 /-- what a later process relies on: a cache file that is not older than the database holds the database -/
 def Safe (s : St) : Prop :=
   ∀ f, s.file = some f → s.dbTime ≤ f.mtime → f.content = s.db
